@@ -461,6 +461,8 @@ func (s *Solvers) SolveProbes(queries []string) []solverResult {
 func (s *Solvers) solveBatch(queries []string, secs int, fallback bool) []solverResult {
 	type uq struct {
 		text string
+		send string // text sent to the batch solver when it differs from text (abstraction)
+		rec  bool
 		idxs []int
 		res  solverResult
 	}
@@ -497,6 +499,16 @@ func (s *Solvers) solveBatch(queries []string, secs int, fallback bool) []solver
 	for _, u := range uniq {
 		if strings.Contains(u.text, "(define-fun-rec ") {
 			u.res = solverResult{Result: "unknown", Solver: "-"}
+			if fallback {
+				// first try with the recursive spec functions left uninterpreted: every model of the real
+				// query is a model of that one, so "unsat" carries over (most obligations do not need the
+				// definitions); anything else goes on to the solvers with the definitions
+				if abs, ok := abstractRec(u.text); ok {
+					u.send = abs
+					u.rec = true
+					z3q = append(z3q, u)
+				}
+			}
 			if !fallback {
 				// vacuity probe: one short cvc5 run, "unknown" is acceptable
 				wg.Add(1)
@@ -538,7 +550,11 @@ func (s *Solvers) solveBatch(queries []string, secs int, fallback bool) []solver
 			defer func() { <-sem }()
 			var sb strings.Builder
 			for k, u := range b {
-				fmt.Fprintf(&sb, "(reset)\n(echo \"==S%d==\")\n(set-option :timeout %d)\n(set-logic ALL)\n%s(echo \"==Q%d==\")\n(check-sat)\n", k, secs*1000, u.text, k)
+				txt := u.text
+				if u.send != "" {
+					txt = u.send
+				}
+				fmt.Fprintf(&sb, "(reset)\n(echo \"==S%d==\")\n(set-option :timeout %d)\n(set-logic ALL)\n%s(echo \"==Q%d==\")\n(check-sat)\n", k, secs*1000, txt, k)
 			}
 			s.mu.Lock()
 			s.n++
@@ -587,6 +603,10 @@ func (s *Solvers) solveBatch(queries []string, secs int, fallback bool) []solver
 			s.mu.Unlock()
 			for k, u := range b {
 				r := got[k]
+				if u.rec && r != "unsat" {
+					u.res = solverResult{Result: "unknown", Solver: "z3-new(uf-rec)", Time: el / float64(len(b)), Output: r}
+					continue
+				}
 				if r == "sat" || r == "unsat" {
 					u.res = solverResult{Result: r, Solver: "z3-new", Time: el / float64(len(b))}
 					s.mu.Lock()
@@ -736,4 +756,58 @@ func relevantHyps(hyps []Term, goal Term) []Term {
 		}
 	}
 	return out
+}
+
+// abstractRec replaces every (define-fun-rec f ((x S) ...) R body) by (declare-fun f (S ...) R).
+func abstractRec(q string) (string, bool) {
+	const kw = "(define-fun-rec "
+	var sb strings.Builder
+	changed := false
+	for {
+		i := strings.Index(q, kw)
+		if i < 0 {
+			sb.WriteString(q)
+			break
+		}
+		sb.WriteString(q[:i])
+		end := sexprEnd(q, i)
+		def := q[i:end]
+		// name
+		rest := def[len(kw):]
+		sp := strings.IndexAny(rest, " \n")
+		if sp < 0 {
+			return "", false
+		}
+		name := rest[:sp]
+		rest = strings.TrimLeft(rest[sp:], " \n")
+		if !strings.HasPrefix(rest, "(") {
+			return "", false
+		}
+		pe := sexprEnd(rest, 0)
+		params := rest[1 : pe-1]
+		var sorts []string
+		for j := 0; j < len(params); {
+			for j < len(params) && (params[j] == ' ' || params[j] == '\n') {
+				j++
+			}
+			if j >= len(params) {
+				break
+			}
+			e := sexprEnd(params, j)
+			p := params[j+1 : e-1] // "x Sort"
+			k := strings.IndexAny(p, " \n")
+			if k < 0 {
+				return "", false
+			}
+			sorts = append(sorts, strings.TrimSpace(p[k:]))
+			j = e
+		}
+		rest = strings.TrimLeft(rest[pe:], " \n")
+		re := sexprEnd(rest, 0)
+		ret := rest[:re]
+		sb.WriteString("(declare-fun " + name + " (" + strings.Join(sorts, " ") + ") " + ret + ")")
+		changed = true
+		q = q[end:]
+	}
+	return sb.String(), changed
 }
